@@ -180,6 +180,10 @@ class Lockstep:
 
                 vclock.advance(float(op[1]))
                 self.stats["steps:clock"] += 1
+            elif kind == "rebind":
+                # the application binds a NEW dict with the same content to the public `nodes` attribute (restoring a backup,
+                # filtering the registry): the registry is whatever gateway.nodes names now
+                self.gateway.nodes = dict(self.gateway.nodes)
             elif kind == "forget":
                 # the application removes a node from the public registry (decommissioned device); its id is free again
                 self.gateway.nodes.pop(op[1], None)
@@ -195,7 +199,14 @@ class Lockstep:
                 # the controller forget registry, buffer or episodes, so the model does nothing
                 await self.stepper.close()
                 try:
-                    await self.gateway.__aexit__(None, None, None)
+                    if len(op) > 1 and op[1] == "transport-error":
+                        # the session ends because listen() raised a transport error (connection lost), then reconnects
+                        from aiomysensors.exceptions import TransportFailedError as _TFE
+
+                        lost = _TFE("connection lost")
+                        await self.gateway.__aexit__(_TFE, lost, None)
+                    else:
+                        await self.gateway.__aexit__(None, None, None)
                     await self.gateway.__aenter__()
                 except Exception as exc:  # noqa: BLE001
                     self.bad("C16", "reenter-raised", f"re-entering the context raised {type(exc).__name__}")
